@@ -196,13 +196,15 @@ def run(ctx):
             continue
         toks = region_tokens_de(b, b.live_blocks(), f)
         kinds = [t[0] for t in toks]
-        ok = len(kinds) == 1 and kinds[0][0] == 'FWD'
+        # (a newtype struct is transparent: visit_newtype_struct(self) hands the same deserializer on - see NEWTYPE)
+        ok = len(kinds) == 1 and (kinds[0][0] == 'FWD' or (ep == 'deserialize_newtype_struct' and kinds[0] == ('VISIT', 'newtype_struct')))
         ctx.ob('WIRE', 'entry/%s' % ep, ok, short_loc(b.span), '%s does not match on the node; tokens %s' % (ep, kinds), nontrivial=False)
 
     helpers_rule(ctx)
     bool_rule(ctx)
     utf8_rule(ctx)
     index_rule(ctx)
+    newtype_rule(ctx)
     lengths_rule(ctx)
     bounds_rule(ctx)
     blocks_rule(ctx)
@@ -392,6 +394,33 @@ def utf8_rule(ctx):
         ctx.ob('UTF8', 'parse_str', ok, short_loc(b.span), 'parse_str returns from_utf8(..).map_err(..): %s' % ok)
 
 
+def newtype_rule(ctx):
+    """serde's newtype struct is a transparent wrapper on both sides of this codec or on neither: the serializer writes
+    `struct Meters(i32)` as its inner value (serialize_newtype_struct forwards the value to the same serializer), and a
+    derived `Deserialize` for a newtype only accepts `visit_newtype_struct` (or a sequence) - so the deserializer has to
+    answer `deserialize_newtype_struct` with `visitor.visit_newtype_struct(self)`.  Answering it like `deserialize_any`
+    hands the visitor an integer / string / map it rejects: valid bytes, written by this very crate, yield Err."""
+    f = ctx.f
+    from ..sermatrix import matrix as ser_matrix
+    ser_transparent = None
+    for b in f.body_list:
+        if b.name == 'serialize_newtype_struct' and b.j['kind'] != 'closure' and 'DatumSerializer' in (b.j.get('self_ty') or ''):
+            fam = [b] + f.closures_of(b)
+            fw = [(x, t) for x in fam for bb, t in x.calls() if (t.get('callee') or '').endswith('serde_core::ser::Serialize::serialize') and not x.is_cleanup(bb)]
+            # the inner value goes to a DatumSerializer (directly, or after the by-name union lookup picked the branch)
+            ser_transparent = len(fw) == 1 and 'DatumSerializer' in ' '.join(fw[0][1].get('arg_tys', [])[1:] + fw[0][1].get('substs', []))
+    b = datum_deserializer_bodies(f).get('deserialize_newtype_struct')
+    if b is None:
+        ctx.ob('NEWTYPE', 'anchor', False, None, 'DatumDeserializer::deserialize_newtype_struct not found')
+        return
+    ctx.touched(b)
+    vn = [t for bb, t in b.calls() if (t.get('callee') or '') == 'serde_core::de::Visitor::visit_newtype_struct' and not b.is_cleanup(bb)]
+    de_transparent = len(vn) == 1 and origin(b, vn[0]['args'][1]).params() == {1} and \
+        not [t for bb, t in b.calls() if classify_de(b, bb, t) and classify_de(b, bb, t)[0] in WIRE_KINDS]
+    ctx.ob('NEWTYPE', 'transparent-on-both-sides', ser_transparent is not None and ser_transparent == de_transparent, short_loc(b.span),
+           'serializer writes a newtype struct as its inner value: %s; deserializer answers deserialize_newtype_struct with visit_newtype_struct(self): %s' % (ser_transparent, de_transparent))
+
+
 def index_rule(ctx):
     f = ctx.f
     n = 0
@@ -448,6 +477,31 @@ def index_rule(ctx):
             ctx.ob('INDEX', '%s/%s.get' % (fn_label(b), which), idx_ok and none_ok, short_loc(t.get('span')),
                    'index derives from %s (must be the decoded discriminant, unmodified): %s; None => Err on every path: %s' % (io.describe(), idx_ok, none_ok))
     ctx.floor('INDEX', 'union/enum index lookups', n, 3)
+    # an enum presented as its raw index (the u64 hint) is still an index INTO the schema: the value handed to the visitor
+    # is compared with the number of symbols (index < symbols.len(), else Err) or comes out of a `.get(index)`
+    dd = datum_deserializer_bodies(f)
+    for name, b in sorted(dd.items()):
+        for r in enum_regions(b, SCHEMA_NODE):
+            if 'Enum' not in r.variants:
+                continue
+            for bb in sorted(r.blocks):
+                t = b.term(bb)
+                if t['k'] != 'call' or b.is_cleanup(bb) or (t.get('callee') or '') != 'serde_core::de::Visitor::visit_u64':
+                    continue
+                vo = origin(b, t['args'][1])
+                if not any('read_varint' in a[1] or 'read_discriminant' in a[1] for a in vo.atoms if a[0] == 'call'):
+                    continue
+                bounded = False
+                for g in cmp_guards(b, bb):
+                    if g['op'] == 'Lt' and 'symbols' in g['r'].fields and 'len' in g['r'].flags and \
+                            any('read_varint' in a[1] or 'read_discriminant' in a[1] for a in g['l'].atoms if a[0] == 'call') and \
+                            all(all_paths_err(b, o_) for o_ in g['other']):
+                        bounded = True
+                for names, adt, oo, d_, oth in option_guards(b, bb):
+                    if 'Some' in names and 'symbols' in oo.fields and any(call_matches(c, ['slice::<impl [T]>::get']) for c in oo.calls):
+                        bounded = True
+                ctx.ob('INDEX', '%s/Enum/raw-index-in-range' % name, bounded, short_loc(t.get('span')),
+                       'the enum index handed to visit_u64 is checked against symbols.len() (else Err): %s' % bounded)
 
 
 # reviewed lossy casts in de:: (function label -> (max count, reason)); guarded ones are accepted automatically
